@@ -1,10 +1,23 @@
 (* C07 and C09 dispatch *)
 From Coq Require Import List Arith NArith Bool.
 From AV Require Import Base.Util Base.ITree Spec.Lang Spec.FA Model.Codec Model.Decide Model.Product
-     Model.Build Model.Subset Model.Minimize.
+     Model.Build Model.Subset Model.Minimize Model.HK.
 Import ListNotations.
 
 Definition enc_diff' (r : res (option word)) : itree := enc_res (enc_opt enc_nats) r.
+
+(* Hopcroft-Karp pair states (subset state, operand index) on the wire: [index, sorted states] *)
+Definition enc_nel (e : list nat + list nat) : itree :=
+  match e with inl q => L [I 0%N; enc_nats q] | inr q => L [I 1%N; enc_nats q] end.
+Definition dec_nel (t : itree) : option (list nat + list nat) :=
+  match t with
+  | L [I i; q] =>
+    match dec_nats q with
+    | Some o => if N.eqb i 0 then Some (inl o) else if N.eqb i 1 then Some (inr o) else None
+    | None => None
+    end
+  | _ => None
+  end.
 
 Definition d07 (op : nat) (t : itree) : itree :=
   match op, t with
@@ -13,7 +26,7 @@ Definition d07 (op : nat) (t : itree) : itree :=
     | Some n, Some impl =>
       L [Ib (valid_dfa impl); In_ (size impl); enc_diff' (nfa_dfa_diff n impl);
          enc_res (fun m => L [In_ (size m); enc_diff' (dfa_diff impl m); Ib (valid_dfa m);
-                              enc_res In_ (bind (minify m) (fun r => Ok (size r)))]) (determinize_m n)]
+                              enc_res (fun r => L [In_ (size r); Ib (d_partial r)]) (to_partial_min m)]) (determinize_m n)]
     | _, _ => bad_input
     end
   | 2, L [td; ti] =>   (* NFA.from_dfa *)
@@ -38,6 +51,20 @@ Definition d07 (op : nat) (t : itree) : itree :=
     | Some a, Some b => L [enc_res Ib (nfa_eq_m a b); enc_res Ib (nfa_ne_m a b); enc_res Ib (nfa_eq_m b a);
                            enc_diff' (nfa_diff a b)]
     | _, _ => bad_input
+    end
+  | 6, L [ta; tb] =>   (* C09: NFA.__eq__ as coded (Hopcroft-Karp mirror model, Model/HK.v), two schedules, both orders *)
+    match dec_nfa ta, dec_nfa tb with
+    | Some a, Some b =>
+      L [enc_res Ib (nfa_hk_eq a b); enc_res Ib (nfa_hk_eq_gen (fun _ _ => false) (rev (n_syms a)) a b);
+         enc_res Ib (nfa_hk_eq b a)]
+    | _, _ => bad_input
+    end
+  | 7, L [ta; tb; ts; tbl_t] =>   (* C09: NFA.__eq__ under a given schedule -> [answer, the sequence of union calls] *)
+    match dec_nfa ta, dec_nfa tb, dec_nats ts, dec_list (dec_pair dec_nel dec_nel) tbl_t with
+    | Some a, Some b, Some syms, Some tbl =>
+      let r := nfa_hk_eq_log (tie_of_table (eqb_list Nat.eqb) (eqb_list Nat.eqb) tbl) syms a b in
+      L [enc_res Ib (fst r); enc_list (enc_pair enc_nel enc_nel) (snd r)]
+    | _, _, _, _ => bad_input
     end
   | _, _ => bad_input
   end.
